@@ -25,3 +25,126 @@ def _cmds_refresh_first(src):
 
 
 const("antctl_cmds_refresh_first", "ant-node-manager/src/cmd/node.rs", _cmds_refresh_first, ty="bool")
+
+# ---------------------------------------------------------------- C20: flag tables
+
+
+def _fn_body(src, header):
+    i = src.index(header)
+    j = src.index("{", i)
+    depth, k = 0, j
+    while True:
+        ch = src[k]
+        if ch == "{":
+            depth += 1
+        elif ch == "}":
+            depth -= 1
+            if depth == 0:
+                return src[j:k + 1]
+        k += 1
+
+
+def _pushed(body):
+    """flags pushed by a builder, in source order; '@peers' / '@evm' mark the shared peers block and
+    the EVM network sub-command"""
+    out = []
+    for m in re.finditer(r'OsString::from\(\s*"(--[a-z-]+)"\s*\)|(push_arguments_from_peers_args)\(|'
+                         r'OsString::from\(\s*self\s*\.(?:service_data\s*\.)?evm_network\.to_string\(\)\s*\)', body):
+        out.append(m.group(1) or ("@peers" if m.group(2) else "@evm"))
+    return out
+
+
+const("svc_install_flags", "ant-node-manager/src/add_services/config.rs",
+      lambda src: _pushed(_fn_body(src[src.index("impl InstallNodeServiceCtxBuilder"):], "pub fn build(self)")),
+      ty="list string")
+const("svc_upgrade_flags", "ant-service-management/src/node.rs",
+      lambda src: _pushed(_fn_body(src, "fn build_upgrade_install_context(")), ty="list string")
+const("svc_peers_flags", "ant-service-management/src/node.rs",
+      lambda src: _pushed(_fn_body(src, "pub fn push_arguments_from_peers_args(")), ty="list string")
+
+
+def _clap_fields(struct_body, enabled_features):
+    """(long flag, takes a value) for every `#[clap(long ...)]` / `#[arg(long ...)]` field that is compiled
+    in with the given feature set"""
+    out = []
+    # split into fields: attributes + `name: Type,`
+    for m in re.finditer(r"((?:\s*#\[[^\]]*\]\s*)+)\s*(?:pub\s+)?(\w+)\s*:\s*([^,\n]+),", struct_body, re.S):
+        attrs, name, ty = m.group(1), m.group(2), m.group(3).strip()
+        skip = False
+        for c in re.finditer(r'#\[cfg\((not\()?feature\s*=\s*"([\w-]+)"\)?\)\]', attrs):
+            has = c.group(2) in enabled_features
+            if (c.group(1) and has) or (not c.group(1) and not has):
+                skip = True
+        a = re.search(r"#\[(?:clap|arg)\((.*?)\)\]", attrs, re.S)
+        if skip or not a or not re.search(r"\blong\b", a.group(1)):
+            continue
+        inner = a.group(1)
+        lm = re.search(r'\blong\s*=\s*"([\w-]+)"', inner)
+        nm = re.search(r'\bname\s*=\s*"([\w-]+)"', inner)
+        flag = "--" + (lm.group(1) if lm else nm.group(1) if nm else name.replace("_", "-"))
+        out.append((flag, 0 if ty == "bool" else 1))
+    return out
+
+
+def _antnode_features():
+    m = re.search(r'^default\s*=\s*\[(.*?)\]', strip_comments(rd("ant-node/Cargo.toml")), re.M | re.S)
+    return set(re.findall(r'"([\w-]+)"', m.group(1)))
+
+
+def _antnode_flag_table(src):
+    src = re.sub(r"///[^\n]*", "", rd("ant-node/src/bin/antnode/main.rs"))
+    body = _fn_body(src, "struct Opt")
+    t = _clap_fields(body, _antnode_features())
+    peers = re.sub(r"///[^\n]*", "", rd("ant-bootstrap/src/initial_peers.rs"))
+    t += _clap_fields(_fn_body(peers, "pub struct PeersArgs"), set())
+    return t
+
+
+const("antnode_flag_table", "ant-node/src/bin/antnode/main.rs", _antnode_flag_table, ty="list (string * N)")
+
+
+def _kebab(v):
+    return re.sub(r"(?<!^)([A-Z])", r"-\1", v).lower()
+
+
+def _evm_subcommands(src):
+    src = re.sub(r"///[^\n]*", "", rd("ant-node/src/bin/antnode/subcommands.rs"))
+    body = _fn_body(src, "enum EvmNetworkCommand")
+    return [_kebab(v) for v in re.findall(r"^\s{4}([A-Z]\w+)\s*[,{]", body, re.M)]
+
+
+const("antnode_evm_subcommands", "ant-node/src/bin/antnode/subcommands.rs", _evm_subcommands, ty="list string")
+
+
+def _evm_custom_flags(src):
+    src = re.sub(r"///[^\n]*", "", rd("ant-node/src/bin/antnode/subcommands.rs"))
+    body = _fn_body(src[src.index("EvmCustom"):], "EvmCustom")
+    return _clap_fields(body, set())
+
+
+const("antnode_evm_custom_flags", "ant-node/src/bin/antnode/subcommands.rs", _evm_custom_flags, ty="list (string * N)")
+const("antctl_upgrade_autostart_literal", "ant-node-manager/src/cmd/node.rs",
+      r"let options = UpgradeOptions \{\s*auto_restart: (true|false),", conv=lambda t: t == "true", ty="bool")
+
+
+def _antnode_conflicts(src):
+    """declared `conflicts_with` pairs of PeersArgs as a flat list [flag, conflicting flag, ...]"""
+    peers = re.sub(r"///[^\n]*", "", rd("ant-bootstrap/src/initial_peers.rs"))
+    body = _fn_body(peers, "pub struct PeersArgs")
+    ids, out = {}, []
+    fields = list(re.finditer(r"((?:\s*#\[[^\]]*\]\s*)+)\s*(?:pub\s+)?(\w+)\s*:\s*([^,\n]+),", body, re.S))
+    for m in fields:
+        a = re.search(r"#\[(?:clap|arg)\((.*?)\)\]", m.group(1), re.S).group(1)
+        lm = re.search(r'\blong\s*=\s*"([\w-]+)"', a)
+        nm = re.search(r'\bname\s*=\s*"([\w-]+)"', a)
+        ids[nm.group(1) if nm else m.group(2)] = "--" + (lm.group(1) if lm else nm.group(1) if nm else m.group(2).replace("_", "-"))
+    for m in fields:
+        a = re.search(r"#\[(?:clap|arg)\((.*?)\)\]", m.group(1), re.S).group(1)
+        nm = re.search(r'\bname\s*=\s*"([\w-]+)"', a)
+        me = ids[nm.group(1) if nm else m.group(2)]
+        for c in re.findall(r'conflicts_with\s*=\s*"(\w+)"', a):
+            out += [me, ids[c]]
+    return out
+
+
+const("antnode_conflicts", "ant-bootstrap/src/initial_peers.rs", _antnode_conflicts, ty="list string")
